@@ -535,6 +535,16 @@ def quit_cases():
         # and posts made by the owner itself), iv_main re-entered, then more posts: every post is still followed by its handler
         ev = ([f"exclude {m}"] if m else []) + ["cfg waitlimit=14 cblimit=80", "obj event e0", "obj event e1", "obj event e2", "obj timer t9", "obj timer t1",
               "on t9 1 : ?evunreg e0 ; ?evunreg e1 ; ?evunreg e2"]
+        # the same for iv_event_raw objects (each is a descriptor of its own): posted from another thread at the same wait, the handler
+        # dispatched first calls iv_quit, iv_main is re-entered: the other object's post must still be delivered
+        rw = ([f"exclude {m}"] if m else []) + ["cfg waitlimit=14 cblimit=80", "obj raw r1", "obj raw r2", "obj raw r3", "obj timer t9",
+              "on t9 1 : ?rawunreg r1 ; ?rawunreg r2 ; ?rawunreg r3"]
+        for vi, (hs, stim, later) in enumerate([
+                (["on r1 1 : quit", "on r2 1 : quit"], "xrawpost r1 ; xrawpost r2", "xrawpost r1"),
+                (["on r1 1 : quit", "on r2 1 : quit", "on r3 1 : quit"], "xrawpost r3 ; xrawpost r2 ; xrawpost r1", "xrawpost r2"),
+                (["on r2 1 : quit ; rawpost r3"], "xrawpost r1 ; xrawpost r2 ; xrawpost r3", "xrawpost r1")]):
+            cases.append((f"quit-{METHOD_NAME[m]}-raw-batch-{vi}", rw + hs + [f"at 0 : {stim}", "do rawreg r1 ; rawreg r2 ; rawreg r3 ; trel t9 50000000",
+                                                                                "main", "main", f"at 4 : {later}", "main", "main"]))
         for vi, (hs, stim, later) in enumerate([
                 (["on e0 1 : quit", "on e1 1 : quit"], "xpost e0 ; xpost e1", "xpost e0"),
                 (["on e0 1 : quit", "on e1 1 : quit", "on e2 1 : quit"], "xpost e2 ; xpost e1 ; xpost e0", "xpost e1"),
@@ -569,6 +579,6 @@ def erronly_cases():
 
 
 ENUM_RULE = ("; plus the ENUMERATED families 'erronly' (24 scenarios: a descriptor whose only handler is the error handler, reached and left by every "
-             "transition, hang-up before/after, 4 methods) and 'quit' (76 scenarios: iv_quit outside iv_main; iv_quit from a descriptor handler while "
-             "other descriptors of the same iteration are undelivered, from a task while later and deferred tasks of the round are pending, and from an iv_event handler while other posted events of the batch are undelivered, then "
+             "transition, hang-up before/after, 4 methods) and 'quit' (88 scenarios: iv_quit outside iv_main; iv_quit from a descriptor handler while "
+             "other descriptors of the same iteration are undelivered, from a task while later and deferred tasks of the round are pending, from an iv_event handler while other posted events of the batch are undelivered, and from an iv_event_raw handler while other raw objects posted in the same batch are undelivered, then "
              "iv_main re-entered: nothing due may be lost across the return; 4 methods)")
